@@ -76,11 +76,100 @@ def case(draw, tier):
     return {"start": start, "end": start + horizon, "comb": comb, "two_node": two_node, "lib": lib, "zero": zero, "zero_script": zero_script, "kind": kind, "n": n, "script": script}
 
 
+@st.composite
+def keyed_case(draw, tier):
+    """a reduction whose ELEMENTS are dictionaries (TSD[int, TSD[int, TS[int]]]) with the key-wise sum as combiner: the result
+    is itself a dictionary, published through the keyed publication path of the reduce node"""
+    big = tier == "thorough"
+    start = 0
+    horizon = draw(st.integers(4, 30 if big else 16))
+    opts = {"cancel": True, "multi": True, "no_rewrite": True, "keys": draw(st.sampled_from([2, 3, 5, 9]))}
+    script = draw(tm.history(("TSD", "int", ("TSD", "int", ("TS", "int"))), start, horizon, opts, max_cycles=14 if big else 9))
+    return {"kind": "KEYED", "start": start, "end": start + horizon, "script": script}
+
+
 def strategy(tier):
-    return case(tier)
+    return st.one_of(case(tier), case(tier), case(tier), case(tier), keyed_case(tier))
+
+
+def check_keyed(case, ctx) -> Result:
+    res = Result()
+    schema = ("TSD", "int", ("TSD", "int", ("TS", "int")))
+    C = {"params": ["TSD[int,TS[int]]", "TSD[int,TS[int]]"], "names": ["lhs", "rhs"], "out": "TSD[int,TS[int]]", "ret": "c",
+         "stmts": [{"id": "c", "op": "node", "ins": [{"arg": 0}, {"arg": 1}], "out": "TSD[int,TS[int]]", "fn": "dsum", "valid": [], "log_inputs": False}]}
+    prog = {"start": case["start"], "end": case["end"], "subs": {"C": C}, "stmts": [
+        {"id": "d", "op": "src", "schema": tm.schema_str(schema), "script": case["script"]},
+        {"id": "red", "op": "op", "name": "reduce", "args": [{"fn": "C"}, {"ts": "d"}], "has_out": True},
+        {"id": "rec", "op": "node", "ins": ["red", "d"], "valid": [], "deep": True}]}
+    resp = ctx.run(prog)
+    if resp.get("crash"):
+        res.violations.append(Viol("engine_crash", f"keyed reduce: worker died {resp.get('signal')} {resp.get('stderr', '')[-500:]}"))
+        return res
+    if not resp.get("built"):
+        raise Rejected(f"C11 generator produced a keyed-reduce program the tree rejects: {resp.get('error')}")
+    feats = {"kind": "KEYED", "zero": False}
+    if resp.get("error"):
+        res.violations.append(Viol("run_failed", f"keyed reduce threw: {resp['error']}", feats))
+        return res
+    seen = {}
+    for d in Trace(resp["trace"]).evals_of("rec", "r"):
+        i = d["ins"][0]
+        seen[d["t"]] = (bool(i.get("v")), {k: c.get("val") for k, c in ((i.get("acc") or {}).get("ch") or []) if c.get("v")} if i.get("v") else None)
+    m = tm.M(schema)
+    shrunk = regrown = False
+    prev_live = 0
+    for t, ops in case["script"]:
+        m.begin_cycle()
+        for op in ops:
+            m.apply(op, t)
+        if not m.modified():
+            continue
+        elems = [{k: c.value for k, c in inner.value.items() if c.valid} for _, inner in sorted(m.value.items()) if inner.valid]
+        live = len(elems)
+        exp = {}
+        for e_ in elems:
+            for k, v in e_.items():
+                exp[k] = exp.get(k, 0) + v
+        if live < prev_live:
+            shrunk = True
+        elif shrunk and live > prev_live:
+            regrown = True
+        prev_live = live
+        got = seen.get(t)
+        if got is None:
+            res.violations.append(Viol("no_evaluation_on_collection_tick", f"t={t}: the collection ticked but the consumer bound to it and to the result was not evaluated", feats))
+            break
+        if live == 0:
+            # an emptied keyed reduction without a zero: the unchanged tree publishes a valid EMPTY dictionary instead of going
+            # invalid (an agent's note on the unchanged tree, wave 7); both are accepted here, a non-empty result is not
+            if got[0] and got[1]:
+                res.violations.append(Viol("result_differs_from_fold", f"t={t}: the collection holds no valid element but the result is {got[1]}", dict(feats, live=0)))
+                break
+            continue
+        if not exp:
+            # every live element is an empty dictionary: an empty result, valid or not, is accepted (whether an element that
+            # was created and emptied counts as a value is C05 territory)
+            if got[0] and got[1]:
+                res.violations.append(Viol("result_differs_from_fold", f"t={t}: every live element is empty but the result is {got[1]}", dict(feats, live=min(live, 3))))
+                break
+            continue
+        if not got[0]:
+            res.violations.append(Viol("result_validity_wrong", f"t={t}: result invalid but {live} valid elements {elems[:6]} are live", dict(feats, live=min(live, 3))))
+            break
+        if got[1] != exp:
+            res.violations.append(Viol("result_differs_from_fold", f"t={t}: keyed result {got[1]} but the key-wise sum over the {live} valid elements {elems[:6]} is {exp}", dict(feats, live=min(live, 3))))
+            break
+    res.nontrivial = shrunk and regrown
+    res.labels.append("kind_KEYED")
+    if shrunk:
+        res.labels.append("keyed_reduce_shrunk")
+    res.summary = {"ticks_seen": sorted(seen)[:20]}
+    return res
 
 
 def check(case, ctx) -> Result:
+    if case.get("kind") == "KEYED":
+        return check_keyed(case, ctx)
     res = Result()
     comb = case["comb"]
     if case["two_node"]:
